@@ -77,6 +77,7 @@ type session struct {
 	// responses collected by a concurrently running client task, replayed later
 	pendingResp []*spb.ModifyResponse
 	announced   [][2]uint64
+	termChecked bool
 }
 
 // env is the state of one simulated run.
